@@ -2,7 +2,7 @@
    kind = property*100 + sub-model.  [run] = what the model says the implementation must
    output on this input; [mon] = the property's monitor applied to the implementation's own
    observed output. *)
-From RainV Require Import Lib Tier Geometry SectionIO Meta Paths Wire Stree AddrList Cache Tracker.
+From RainV Require Import Lib Tier Geometry SectionIO Meta Paths Wire Stree AddrList Cache Tracker Announcer.
 
 Definition run (kind : Z) (inp : list Z) : list Z :=
   match kind with
@@ -23,6 +23,7 @@ Definition run (kind : Z) (inp : list Z) : list Z :=
   | 1104 => run_roundtrip inp
   | 1501 => run_udp_packet inp
   | 1502 => run_http_query inp
+  | 1503 => run_announcer inp
   | 1601 => run_tier true inp
   | 1602 => run_udp_parse inp
   | 1603 => run_http_parse inp
@@ -51,6 +52,7 @@ Definition mon (kind : Z) (inp obs : list Z) : bool :=
   | 1104 => mon_roundtrip inp obs
   | 1501 => mon_udp_packet inp obs
   | 1502 => list_eqb_Z (run_http_query inp) obs
+  | 1503 => mon_announcer inp obs
   | 1601 => mon_tier inp obs
   | 1602 => mon_udp_parse inp obs
   | 1603 => mon_http_parse inp obs
